@@ -21,6 +21,7 @@ def random_shape(r, rich=True, bare=False):
     shape = {'primary': r.choice(PRIMARIES), 'same_second': same, 'uids': [], 'uas': r.choice([0, 0, 1, 2]) if rich else 0, 'subs': [],
              'direct': r.random() < 0.4, 'revoker': r.random() < 0.3, 'key_revoked': r.random() < 0.15,
              'third_direct': r.choice([None, None, 'exportable', 'local', 'both']), 'sub_local_cert': r.random() < 0.15}
+    shape['revoker_sensitive'] = shape['revoker'] and r.random() < 0.5
     for t in texts:
         shape['uids'].append({'text': t, 'third': r.choice([0, 0, 1, 2, 3]), 'revoked': r.random() < 0.2, 'nonexp': r.random() < 0.3, 'exp_true': r.random() < 0.3,
                               'attest': r.random() < 0.2, 'recert': r.random() < 0.3, 'primary': r.choice([None, True, False]),
@@ -116,7 +117,10 @@ def build(shape):
                 k |= s_
                 (info['nonexportable'] if exp is False else info['exportable']).append(bytes(s_))
         if shape.get('revoker'):
-            k |= k.revoker(certifier(CERTIFIERS[0]).pubkey, created=when())
+            # designated revoker, also a "sensitive" one: a direct-key self-signature like any other as far as export is concerned
+            rs_ = k.revoker(certifier(CERTIFIERS[0]).pubkey, sensitive=bool(shape.get('revoker_sensitive')), created=when())
+            k |= rs_
+            info['exportable'].append(bytes(rs_))
         if shape.get('key_revoked'):
             k |= k.revoke(k, created=when())
         for uid, u in later:
